@@ -29,6 +29,10 @@ let std : stdlib = {
   rsa_selfcheck = (fun pss h salt n e d p q ->
     oracle (String.concat " " ["c14_rsa_selfcheck"; (if pss then "pss" else "pkcs1"); hash_name h; dec_of_n salt;
                                hexs n; dec_of_n e; hexs d; hexs p; hexs q]) = "01");
+  (* the library's own ML-DSA key generation (no counterpart in the Go standard library): trusted for this one function *)
+  mldsa_pub = (fun inst seed ->
+    let r = oracle (String.concat " " ["c14_mldsa_pub"; dec_of_n inst; hexs seed]) in
+    if r = "ERR" then [] else unhex r);
 }
 
 let okerr = function Ok _ -> "ok" | Err -> "err" | Panic -> "PANIC-MODEL"
